@@ -172,7 +172,10 @@ def anchor_files(prop):
 def hygiene(ctx):
     """Rule G: structural hazards that break "the result depends on the stated inputs only" wherever they occur —
     shifted optional flags, closures outliving their loop iteration, single-pass iterables consumed twice, %-templates
-    assembled from data, in-place writes to class-level or memoised objects, generators that modify what they already yielded.  Each is decided from the source; on the
+    assembled from data, in-place writes to class-level or memoised objects, generators that modify what they already yielded, memo keys that are
+    projections, unchecked child processes, and the exact lints of lints.py (duplicated operands, prefix removal by strip(),
+    shared mutable defaults, memoised mutable results, cloned sibling bodies, module-level alias writes, catch-all handlers
+    around a loop, write-open without truncation).  Each is decided from the source; on the
     tree as it stands none occurs in any anchored file, so every finding is new."""
     files = [f for f in anchor_files(ctx.prop) if f in ctx.program.by_rel]
     if not files:
@@ -185,6 +188,7 @@ def hygiene(ctx):
     yielded_then_mutated(ctx, "G", files)
     memo_keys(ctx, "G", files)
     child_status(ctx, "G", files)
+    classic_slips(ctx, "G", files)
 
 
 def publication(ctx, rule, modname, qual, live, what):
@@ -204,7 +208,13 @@ def publication(ctx, rule, modname, qual, live, what):
     ctx.check(rule, fi, bool(renames), f"publishes-by-rename:{qual}", f"{qual} publishes {what} with a rename onto the live location",
               f"{qual} no longer renames a finished temporary onto the live location ({sorted(live)}): {what} is not published atomically")
     g = cfg_of(fi.node)
+    import ast as _ast
     for r in renames:
+        callee = _ast.unparse(r.node.func) if isinstance(r.node, _ast.Call) and r.via is None else ""
+        ctx.check(rule, fi, not callee.endswith("move"), f"publishes-with-move:{qual}",
+                  f"{qual}: the live location is replaced by rename(2) (os.rename / os.replace)",
+                  f"{qual} publishes with `{callee}`: shutil.move is a rename only on one filesystem and only when the destination is not an existing directory — otherwise it "
+                  f"copies over the live {what} in place (a crash leaves it truncated) or moves the new tree INTO the old one", node=r.node)
         rn = g.node_of(r.node)
         for s in sites:
             if s is r or not (s.srcs & live):
@@ -291,3 +301,50 @@ def child_status(ctx, rule, files):
                      f"{fi.qual}: {what} (line {call.lineno}): a failing or killed child is indistinguishable from a successful one, so incomplete output is accepted", node=call)
     ctx.ob(rule, "child processes", f"{n} functions in {len(files)} file(s): every child process started has its exit status checked", file=sorted(files)[0] if files else "")
     return n
+
+
+def classic_slips(ctx, rule, files):
+    """the exact lints of lints.py on functions, classes and module bodies of ``files``"""
+    from . import lints
+    files = set(files)
+    n = 0
+    for m in ctx.program.modules.values():
+        if m.relpath not in files:
+            continue
+        for node, tag, msg in lints.module_alias_write(m.tree):
+            ctx.fail(rule, m, tag, msg, node=node)
+        for scope, owner in [(m.tree, m)] + [(K.node, K) for K in m.classes.values()]:
+            for node, tag, msg in lints.clone_siblings(scope):
+                ctx.fail(rule, owner, tag, f"{getattr(owner, 'qual', '')}: " + msg, node=node)
+        for fi in m.funcs.values():
+            n += 1
+            nested = ".<locals>." in fi.qual
+            for f in (lints.dup_operands, lints.strip_charset, lints.cached_mutable, lints.broad_try_around_loop, lints.open_without_trunc, lints.unused_result):
+                if nested:
+                    continue  # the enclosing function's walk already covers nested bodies
+                for node, tag, msg in f(fi.node):
+                    ctx.fail(rule, fi, f"{tag}:{fi.name}", f"{fi.qual}: " + msg, node=node)
+            for node, tag, msg in lints.mutable_default(fi.node):
+                ctx.fail(rule, fi, tag, f"{fi.qual}: " + msg, node=node)
+    ctx.ob(rule, "classic slips", f"{n} functions in {len(files)} file(s): no duplicated operand, prefix-by-strip(), shared mutable default, memoised mutable result, "
+           "cloned sibling body, module-level alias write, catch-all around a loop, or write-open without truncation", file=sorted(files)[0] if files else "")
+    return n
+
+
+def always_reaches(ctx, rule, modname, qual, call_pred, what, tag):
+    """every way through modname:qual that returns normally passes a call satisfying ``call_pred`` (no early return may
+    skip the step: "nothing to write" is not a reason to leave the old file in place)"""
+    import ast
+    from . import astutil as A
+    from .cfg import cfg_of
+    fi = ctx.program.func_opt(modname, qual)
+    ctx.require(fi is not None, f"{modname}:{qual} not found")
+    g = cfg_of(fi.node)
+    hits = [g.node_of(c) for c in A.calls(fi.node) if call_pred(c)]
+    hits = [h for h in hits if h is not None]
+    if not ctx.check(rule, fi, bool(hits), f"{tag}:present", f"{qual} performs {what}", f"{qual} no longer performs {what}"):
+        return
+    path = g.find_path([g.entry], lambda n: n is g.exit, avoid=lambda n: n in hits)
+    ctx.check(rule, fi, path is None, tag, f"every normal way through {qual} performs {what}",
+              f"{qual} can return without {what} ({g.fmt_path(path, fi.relpath) if path else ''}): the state on disk then stays as it was although the caller was told it had been written",
+              node=hits[0].ast)
